@@ -6,7 +6,8 @@
    byte-compares.  What is proved is where the environment enters the model explicitly. *)
 From Coq Require Import String List Permutation.
 From CMinx Require Import Base.Str Model.Path Model.Naming Model.Pipeline Model.Walk
-     Proofs.WalkFacts Proofs.WalkFacts2 Proofs.RunFacts Proofs.NamingFacts Proofs.PathFacts.
+     Proofs.WalkFacts Proofs.WalkFacts2 Proofs.RunFacts Proofs.NamingFacts Proofs.PathFacts
+     Model.Config Gen.ConfigData Base.PyMainSem Gen.PyMainSource Proofs.ConfigFacts Proofs.MainSourceMatch.
 Import ListNotations.
 
 (* a different order of directory listings: the same set of (path, content) pairs *)
@@ -59,3 +60,33 @@ Theorem C17_default_prefix_spelling_independent :
     /\ basename (abspath (abs_of (cc ++ [m])) (dotdot ++ [slash] ++ n)) = b.
 Proof. exact default_prefix_spelling_independent. Qed.
 Print Assumptions C17_default_prefix_spelling_independent.
+
+(* pymain2coq: the control flow of main() as regenerated from src/cminx/__init__.py on every run
+   (argument parsing, stacking of the sources, template validation, the exclude-filter loop, the
+   loop over the inputs) equals the specification model_main, for every environment, document
+   function and argument vector. *)
+Theorem C17_main_matches_source :
+  forall env document toks, py_run (main env document toks) = model_main env document toks.
+Proof. exact main_matches_source. Qed.
+Print Assumptions C17_main_matches_source.
+
+Theorem C17_inputs_documented_in_order : forall env document toks p stack st,
+  parse_args cli_table toks = Some p ->
+  consulted env p = Some stack ->
+  settings_of (env_cwd env) stack template = Some st ->
+  forallb (excl_src_ok excl_key) stack = true ->
+  py_run (main env document toks)
+  = finish (run_inputs (map (fun f => document f (accepted_object stack st)) (p_positional p))).
+Proof. exact inputs_documented_in_order. Qed.
+Print Assumptions C17_inputs_documented_in_order.
+
+Theorem C17_inputs_documented_concat : forall env document toks p stack st,
+  parse_args cli_table toks = Some p ->
+  consulted env p = Some stack ->
+  settings_of (env_cwd env) stack template = Some st ->
+  forallb (excl_src_ok excl_key) stack = true ->
+  forallb run_ok (map (fun f => document f (accepted_object stack st)) (p_positional p)) = true ->
+  py_run (main env document toks)
+  = Returned (concat (map (fun f => document f (accepted_object stack st)) (p_positional p))).
+Proof. exact inputs_documented_concat. Qed.
+Print Assumptions C17_inputs_documented_concat.
